@@ -21,8 +21,9 @@ CHECKS = {
             "runs on handlers that already completed a transfer (any mode / closure) and idled beyond every timer interval", "5 C02, 12", "quiescence oracle"),
     "C03": ("bounded liveness after at most K link faults with limits > K, history shell; before the seeded search every K=1 schedule and (thorough: every, quick: every third) K=2 schedule on small files is executed (sweep)", "5 C03, 12", "bounded-liveness oracle; K<=2 schedule sweep + seeded search"),
     "C07": ("sender stream model judged on every emitted PDU in fault-free, bounded-fault and cancel populations", "5 C07", "in-situ invariant vs SenderStream model"),
-    "C09": ("independent reference checksums compared in situ on every EOF, completion decision and verify_checksum call; "
-            "stand-alone prefix x chunk combinations that no transfer produces are NOT reached (DESIGN 6)", "5 C09, 6", "in-situ invariant vs reference checksums"),
+    "C09": ("independent reference checksums compared in situ on every EOF (incl. cancel-time prefixes and re-sent EOFs), completion decision and "
+            "verify_checksum call; the sending user re-computes the sent prefix with a per-call chunk-length knob and a second checksum type on the same "
+            "filestore object; stand-alone prefix x chunk enumeration is NOT reached (DESIGN 6)", "5 C09, 6, 12", "in-situ invariant vs reference checksums"),
     "C10": ("robustness oracle over synthetic PDU / API / time-step histories against all four handlers in every reachable step", "5 C10", "synthetic peer, exception + state-unchanged oracle"),
     "C04": ("RetryModel (explicit counters and integer-millisecond deadlines of the three retry procedures) judged at every "
             "handler call while one or both link directions go silent at tape-chosen points, permanently or for a while", "5 C04", "timing oracle on the virtual clock"),
@@ -33,9 +34,9 @@ CHECKS = {
     "C20": ("routing table and routing/admission agreement judged on every routed PDU incl. synthetic kinds and header variants; "
             "misroute and bad-status faults; the finite table (kind x direction flag x mode x CRC x id width x handler state x receiving entity x routed / misrouted, 4608 cells) is swept completely before the seeded search", "5 C20, 12", "in-situ oracle + misroute fault; complete table sweep"),
     "C11": ("differential: the same transaction (own slice of the decision tape) executed on fresh handlers, after a tape-chosen "
-            "history of completed / cancelled / faulted / abandoned / reset transactions on the same handler objects, and beside a "
-            "sibling pair of handler instances interleaved by the same scheduler; normalised observable traces and final file "
-            "must be equal", "5 C11", "twin-run differential on exactly repeatable executions"),
+            "history of completed / cancelled / faulted / abandoned / reset / junk-fed transactions on the same handler objects, beside a "
+            "sibling pair of handler instances, and beside a second source / destination handler on the same two entities (shared MIB, user, "
+            "filestore, sequence provider), all interleaved by the same scheduler; normalised observable traces and final file must be equal", "5 C11, 12", "twin-run differential on exactly repeatable executions"),
     "C12": ("clauses (a)-(e) judged on cancel requests (right / wrong id) injected between any two handler calls on either side, "
             "both modes, closure and disposition settings, optional link faults", "5 C12", "cancel-point search"),
     "C13": ("check-timer RetryModel judged at every call while the link makes the EOF overtake tape-chosen File Data PDUs and "
@@ -56,14 +57,17 @@ CHECKS = {
             "file-system model (status code / data / exception, whole tree and contents); separate population with OSErrors "
             "injected at the k-th host access of an operation: never success, tree unchanged", "5 C17", "refinement vs FsModel + storage fault injection"),
     "C18": ("shadow IntervalSet judged on every LostSegmentTracker operation the destination handler issues under simulated arrival "
-            "histories and fault schedules (grid, bounded-fault, chaos, synthetic-peer populations); only operations inside the "
-            "property's preconditions are judged; the exhaustive-for-small-N part of the quantifier is NOT reached (DESIGN 6)", "5 C18, 6", "in-situ refinement vs shadow IntervalSet"),
+            "histories and fault schedules (grid, bounded-fault, chaos, synthetic-peer populations) and on tape-drawn operation histories issued "
+            "directly on one or two interleaved tracker objects; only operations inside the property's preconditions are judged; the "
+            "exhaustive-for-small-N part of the quantifier is NOT reached (DESIGN 6)", "5 C18, 6, 12", "refinement vs shadow IntervalSet (in situ + direct operation histories)"),
     "C08": ("every NAK PDU reaching the real source handler (from the real receiver under link faults, or synthetic with requests "
             "around the live progress / file size, valid and invalid) judged per call: emitted File Data PDUs tile the valid "
             "requests exactly (multiset equality), Metadata byte-identical for (0,0), invalid requests raise the library NAK "
             "error and emit nothing outside valid requests or the file; SenderStream model checks that the original stream and "
             "the EOF are unchanged afterwards", "5 C08", "per-call refinement + stream model"),
-    "C15": ("indication model judged on every handler call in four populations; 2^4 switches per entity and 5 message variants", "5 C15", "in-situ invariant vs IndicationModel"),
+    "C15": ("indication model judged on every handler call in six populations (fault-free incl. preludes, bounded-fault, cancel, chaos, silent peer, "
+            "synthetic peer); 2^4 switches per entity and 7 message-list variants; receiver order, Finished PDU vs indication, transaction ids of "
+            "indications vs PDUs", "5 C15, 12", "in-situ invariant vs IndicationModel"),
 }
 NOT_BUILT = "check not built yet (work in progress, see DESIGN.md section 5)"
 
